@@ -2,7 +2,7 @@
    bool, option, unit, list, prod, sumbool, sumor to the OCaml types; andb/orb inlined; nat, N and
    positive stay Coq datatypes). *)
 From Coq Require Import List NArith Bool Arith.
-Require Import V.Regex V.Parse V.Parse2 V.Auth V.PathSpec V.Splice V.Setters V.Iter V.PathQ V.AuthMut.
+Require Import V.Regex V.Parse V.Parse2 V.Auth V.PathSpec V.Splice V.Setters V.Iter V.PathQ V.AuthMut V.Push V.SetPath V.SetAuth V.SetScheme V.PathMut V.Reference V.Cmp.
 Require Extraction.
 Require Import ExtrOcamlBasic.
 Extraction Language OCaml.
@@ -13,4 +13,9 @@ Extraction "../ocaml/model.ml"
   segments it_next it_next_back path_is_empty is_abs
   pq_first pq_last pq_segments pq_segments_rev pq_file_name pq_directory pq_parent pq_parent_or_empty pq_normalized_segments
   find_port set_userinfo set_host set_port view window
+  set_scheme set_authority set_path Setters.set_query set_fragment abs_set_scheme from_scheme path_mut authority_mut
+  get_scheme get_authority get_path get_query get_fragment abs_scheme remove_dot_segments resolve ref_base
+  pm_view pm_new pm_from_path pm_push pm_pop pm_clear pm_symbolic_push pm_symbolic_push_pub pm_symbolic_append pm_normalize path_normalized pb_apply seg_texts
+  relative_to path_suffix ref_suffix
+  dec cmp_ref eq_ref hash_ref cmp_path eq_path hash_path cmp_authority eq_authority hash_authority cmp_key eq_key pct_key raw_key hash_pct hash_raw nsegs
   segs split join render norm.
